@@ -58,7 +58,7 @@ PROPS = {
 PROBES = {'C06': ['readd_removed_other_stride', 'append_differing_props', 'extract_into_nonempty',
                   'op_on_empty_array', 'nonlocal_tags_at_align', 'pickle_strided', 'set_tag_called',
                   'clear_then_reuse', 'append_update_constants', 'remove_all', 'extract_duplicate_indices',
-                  'add_property_fills_empty_array', 'fill_empty_array_with_strided_props_declared']}
+                  'add_property_fills_empty_array', 'fill_empty_array_with_strided_props_declared', 'remove_unsorted_indices']}
 
 
 def prepare(prop, tier):
@@ -438,13 +438,18 @@ def apply_op(w, op):
     elif k == 'remove_particles':
         if n == 0:
             return None
-        ii = sorted(set(i % n for i in idx))
+        ii = []
+        for i in idx:
+            if i % n not in ii:
+                ii.append(i % n)        # distinct indices in the order drawn (any order is accepted by the method)
         if not ii:
             return None
         rr = real_records(pa)
         gone = [canon(rr[i]) for i in ii]
         how = int(op.get('variant', 0)) % 3
-        arg = ii if how == 0 else (np.array(ii) if how == 1 else _long(ii))
+        if ii != sorted(ii):
+            w.probe('remove_unsorted_indices')
+        arg = list(ii) if how == 0 else (np.array(ii) if how == 1 else _long(ii))
         pa.remove_particles(arg, align=flag)
         _remove(w, m, gone)
         if len(ii) == n:
